@@ -162,6 +162,12 @@ def weave_fn(it, ctx, meta, modpath, in_trait_decl=False):
     """weaves the overlay into one function; when an anchor of the overlay is lost (the function's shape changed), the
     function is emitted as #[verifier::external_body] with its contract only and reported in meta["lost_fns"]:
     it is then *unproved* (never an alarm by itself), callers still see its contract."""
+    forced = getattr(ctx, "force_degrade", None) or {}
+    if it.key in forced and it.body is not None:
+        # second pass after a front-end error located in this function's woven text (e.g. an invariant names a local
+        # variable that no longer exists): same treatment as a lost anchor
+        meta.setdefault("lost_fns", {})[it.key] = "front-end error in the woven text: " + forced[it.key]
+        return _weave_fn(it, ctx, meta, modpath, in_trait_decl, degrade=True)
     try:
         return _weave_fn(it, ctx, meta, modpath, in_trait_decl, degrade=False)
     except GenError as e:
@@ -411,10 +417,11 @@ def inject_text(key, ctx, meta):
     return "\n".join(clause_lines(lines, key, "inject", meta, indent="")) + "\n"
 
 
-def generate(repo, contracts, twin=False, only=None):
+def generate(repo, contracts, twin=False, only=None, force_degrade=None):
     ov_files = sorted(os.path.join(contracts, f) for f in os.listdir(contracts) if f.endswith(".vc"))
     ov = parse_overlay(ov_files)
     ctx = Ctx(ov, twin, only)
+    ctx.force_degrade = force_degrade or {}
     ctx.inject_text = inject_text
     ctx.filter_attrs = filter_attrs
     meta = {"labels": {}, "files": {}, "rewrite_log": ctx.log}
@@ -541,10 +548,12 @@ def main():
     ap.add_argument("--meta", required=True)
     ap.add_argument("--twin", action="store_true")
     ap.add_argument("--only", default=None)
+    ap.add_argument("--degrade", default=None, help="json file: {function key: reason} to emit as external_body with contract only")
     a = ap.parse_args()
     only = a.only.split(",") if a.only else None
+    fd = json.load(open(a.degrade)) if a.degrade else None
     try:
-        text, meta = generate(a.repo, a.contracts, a.twin, only)
+        text, meta = generate(a.repo, a.contracts, a.twin, only, fd)
     except GenError as e:
         print("vgen: cannot generate: %s" % e, file=sys.stderr)
         sys.exit(2)
